@@ -83,15 +83,15 @@ Proof.
 Qed.
 
 (** ** weighted_var *)
-Lemma wvar_rows_inv xw v :
-  wvar_rows xw = Some v ->
+Lemma wvar_core_inv xw v :
+  wvar_core xw = Some v ->
   let V1 := wtot xw in
   let V2 := qsum (map (fun p => sq (snd p)) xw) in
   let xbar := qsum (map (fun p => fst p * snd p) xw) / V1 in
   ~ V1 == 0 /\ ~ V1 - V2 / V1 == 0 /\
   v == qsum (map (fun p => snd p * sq (fst p - xbar)) xw) / (V1 - V2 / V1).
 Proof.
-  unfold wvar_rows. cbv zeta.
+  unfold wvar_core. cbv zeta.
   destruct (Qeq_bool (wtot xw) 0) eqn:E1; [discriminate|].
   destruct (Qeq_bool (wtot xw - qsum (map (fun p => sq (snd p)) xw) / wtot xw) 0) eqn:E2; [discriminate|].
   intro H. apply some_inj in H. rewrite <- H.
@@ -104,9 +104,9 @@ Qed.
 
 (** the code's formula is the reliability-weights unbiased estimator written with normalised
     weights v_i = w_i / sum w:  sum v_i (x_i - mu)^2 / (1 - sum v_i^2),  mu = sum v_i x_i *)
-Theorem weighted_var_reliability xw v : wvar_rows xw = Some v -> v == spec_var xw.
+Theorem wvar_core_reliability xw v : wvar_core xw = Some v -> v == spec_var xw.
 Proof.
-  intro H. destruct (wvar_rows_inv xw v H) as (H1 & H2 & ->). unfold spec_var.
+  intro H. destruct (wvar_core_inv xw v H) as (H1 & H2 & ->). unfold spec_var.
   set (s := wtot xw) in *.
   set (V2 := qsum (map (fun p => sq (snd p)) xw)) in *.
   set (SX := qsum (map (fun p => fst p * snd p) xw)).
@@ -136,13 +136,13 @@ Proof.
 Qed.
 
 (** with equal weights it is the usual unbiased sample variance *)
-Theorem weighted_var_equal_weights xw c v :
-  Forall (fun p => snd p == c) xw -> wvar_rows xw = Some v ->
+Theorem wvar_core_equal_weights xw c v :
+  Forall (fun p => snd p == c) xw -> wvar_core xw = Some v ->
   let n := inject_Z (Z.of_nat (length xw)) in
   let mean := qsum (map fst xw) / n in
   v == qsum (map (fun p => sq (fst p - mean)) xw) / (n - 1).
 Proof.
-  intros Hc H n mean. destruct (wvar_rows_inv xw v H) as (H1 & H2 & ->).
+  intros Hc H n mean. destruct (wvar_core_inv xw v H) as (H1 & H2 & ->).
   rewrite Forall_forall in Hc.
   assert (E1 : wtot xw == c * n).
   { unfold wtot. rewrite (qsum_map_eq snd (fun _ => c)); [apply qsum_const | exact Hc]. }
@@ -168,8 +168,8 @@ Proof.
   field. repeat split; assumption.
 Qed.
 
-Theorem weighted_var_equal_defined xw c :
-  Forall (fun p => snd p == c) xw -> 0 < c -> (2 <= length xw)%nat -> exists v, wvar_rows xw = Some v.
+Theorem wvar_core_equal_defined xw c :
+  Forall (fun p => snd p == c) xw -> 0 < c -> (2 <= length xw)%nat -> exists v, wvar_core xw = Some v.
 Proof.
   intros Hc Hpos Hlen. rewrite Forall_forall in Hc.
   set (n := inject_Z (Z.of_nat (length xw))).
@@ -180,7 +180,7 @@ Proof.
   assert (E2 : qsum (map (fun p => sq (snd p)) xw) == c * c * n).
   { rewrite (qsum_map_eq _ (fun _ => c * c)); [apply qsum_const|].
     intros p Hp. unfold sq. rewrite (Hc p Hp). reflexivity. }
-  unfold wvar_rows.
+  unfold wvar_core.
   assert (P : 0 < c * n) by (apply Qmult_lt_0_compat; lra).
   destruct (Qeq_bool (wtot xw) 0) eqn:B1.
   { apply Qeq_bool_iff in B1. rewrite E1 in B1. lra. }
@@ -192,12 +192,12 @@ Proof.
 Qed.
 
 (** rescaling the weights does not change the variance *)
-Theorem weighted_var_scale_invariant xw c v v' :
-  ~ c == 0 -> wvar_rows xw = Some v -> wvar_rows (map (fun p => (fst p, c * snd p)) xw) = Some v' -> v == v'.
+Theorem wvar_core_scale_invariant xw c v v' :
+  ~ c == 0 -> wvar_core xw = Some v -> wvar_core (map (fun p => (fst p, c * snd p)) xw) = Some v' -> v == v'.
 Proof.
   intros Hc H H'.
-  destruct (wvar_rows_inv xw v H) as (H1 & H2 & ->).
-  destruct (wvar_rows_inv _ v' H') as (H1' & H2' & ->).
+  destruct (wvar_core_inv xw v H) as (H1 & H2 & ->).
+  destruct (wvar_core_inv _ v' H') as (H1' & H2' & ->).
   rewrite !map_map in *. cbn [fst snd] in *.
   assert (G : forall v, c * v == c * v) by (intro; reflexivity).
   rewrite (wtot_map_w (Qmult c) c xw G) in *.
@@ -223,6 +223,130 @@ Proof.
   { intro E. assert (E' : c * (s * s - V2) == 0) by (rewrite <- E; ring).
     apply Qmult_integral in E'. tauto. }
   field. repeat split; auto.
+Qed.
+
+(** ** weighted_var as coded (since /repo 7d9ef43): normalise the weights first, then the formula *)
+Definition opt_rel (a b : option Q) : Prop :=
+  match a, b with Some v, Some v' => v == v' | None, None => True | _, _ => False end.
+
+Definition scale_rows (c : Q) (xw : list (Q * Q)) : list (Q * Q) := map (fun p => (fst p, c * snd p)) xw.
+Definition V2_of (xw : list (Q * Q)) : Q := qsum (map (fun p => sq (snd p)) xw).
+
+Lemma wvar_core_defined xw :
+  (exists v, wvar_core xw = Some v) <-> (~ wtot xw == 0 /\ ~ wtot xw - V2_of xw / wtot xw == 0).
+Proof.
+  unfold wvar_core, V2_of. cbv zeta.
+  destruct (Qeq_bool (wtot xw) 0) eqn:E1.
+  - split; [intros [v H]; discriminate|]. intros [H _]. apply Qeq_bool_iff in E1. tauto.
+  - destruct (Qeq_bool (wtot xw - qsum (map (fun p => sq (snd p)) xw) / wtot xw) 0) eqn:E2.
+    + split; [intros [v H]; discriminate|]. intros [_ H]. apply Qeq_bool_iff in E2. tauto.
+    + split; [|eauto]. intros _.
+      split; intro E; apply Qeq_bool_iff in E; congruence.
+Qed.
+
+Lemma scale_rows_tot c xw : wtot (scale_rows c xw) == c * wtot xw.
+Proof. unfold scale_rows. apply (wtot_map_w (Qmult c) c xw). intro; reflexivity. Qed.
+
+Lemma scale_rows_V2 c xw : V2_of (scale_rows c xw) == c * c * V2_of xw.
+Proof.
+  unfold V2_of, scale_rows. rewrite map_map. cbn [snd].
+  rewrite <- qsum_map_scale. apply qsum_map_eq. intros p _. unfold sq. ring.
+Qed.
+
+Lemma wvar_core_defined_scale c xw :
+  ~ c == 0 -> ((exists v, wvar_core xw = Some v) <-> (exists v, wvar_core (scale_rows c xw) = Some v)).
+Proof.
+  intro Hc. rewrite !wvar_core_defined, scale_rows_tot, scale_rows_V2.
+  set (s := wtot xw). set (V2 := V2_of xw).
+  assert (Hs : c * s == 0 <-> s == 0).
+  { split; intro E; [|rewrite E; ring]. apply Qmult_integral in E. tauto. }
+  split; intros [H1 H2]; (split; [tauto|]).
+  - intro E. apply H2.
+    assert (E' : c * s - c * c * V2 / (c * s) == c * (s - V2 / s)) by (field; tauto).
+    rewrite E' in E. apply Qmult_integral in E. tauto.
+  - assert (H1' : ~ s == 0) by tauto. intro E.
+    assert (E' : c * s - c * c * V2 / (c * s) == c * (s - V2 / s)) by (field; tauto).
+    apply H2. rewrite E', E. ring.
+Qed.
+
+(** the formula is unaffected, in definedness and value, by a non-zero common factor *)
+Lemma wvar_core_scaled c xw : ~ c == 0 -> opt_rel (wvar_core xw) (wvar_core (scale_rows c xw)).
+Proof.
+  intro Hc. pose proof (wvar_core_defined_scale c xw Hc) as D. unfold opt_rel.
+  destruct (wvar_core xw) as [v|] eqn:H; destruct (wvar_core (scale_rows c xw)) as [v'|] eqn:H'.
+  - exact (wvar_core_scale_invariant xw c v v' Hc H H').
+  - destruct D as [D _]. destruct (D (ex_intro _ v eq_refl)) as [v' Hv']. discriminate.
+  - destruct D as [_ D]. destruct (D (ex_intro _ v' eq_refl)) as [v Hv]. discriminate.
+  - exact I.
+Qed.
+
+(** normalising first changes nothing (in exact arithmetic) except for a zero weight sum, where
+    both are undefined *)
+Lemma wvar_rows_core xw : opt_rel (wvar_rows xw) (wvar_core xw).
+Proof.
+  unfold wvar_rows. cbv zeta. destruct (Qeq_bool (wtot xw) 0) eqn:E.
+  - unfold wvar_core. cbv zeta. rewrite E. exact I.
+  - assert (Hs : ~ wtot xw == 0) by (intro E'; apply Qeq_bool_iff in E'; congruence).
+    assert (Hc : ~ / wtot xw == 0).
+    { intro E'. apply Hs. rewrite <- (Qinv_involutive (wtot xw)), E'. reflexivity. }
+    pose proof (wvar_core_scaled (/ wtot xw) xw Hc) as R. unfold scale_rows in R.
+    unfold opt_rel in *.
+    destruct (wvar_core xw); destruct (wvar_core (map (fun p => (fst p, / wtot xw * snd p)) xw)); auto.
+    now symmetry.
+Qed.
+
+Lemma wvar_rows_some xw v : wvar_rows xw = Some v -> exists v0, wvar_core xw = Some v0 /\ v == v0.
+Proof.
+  intro H. pose proof (wvar_rows_core xw) as R. rewrite H in R. unfold opt_rel in R.
+  destruct (wvar_core xw) as [v0|]; [eauto | contradiction].
+Qed.
+
+Lemma wvar_core_some xw v0 : wvar_core xw = Some v0 -> exists v, wvar_rows xw = Some v /\ v == v0.
+Proof.
+  intro H. pose proof (wvar_rows_core xw) as R. rewrite H in R. unfold opt_rel in R.
+  destruct (wvar_rows xw) as [v|]; [eauto | contradiction].
+Qed.
+
+Theorem weighted_var_reliability xw v : wvar_rows xw = Some v -> v == spec_var xw.
+Proof.
+  intro H. destruct (wvar_rows_some xw v H) as (v0 & H0 & E). rewrite E.
+  now apply wvar_core_reliability.
+Qed.
+
+Theorem weighted_var_equal_weights xw c v :
+  Forall (fun p => snd p == c) xw -> wvar_rows xw = Some v ->
+  let n := inject_Z (Z.of_nat (length xw)) in
+  let mean := qsum (map fst xw) / n in
+  v == qsum (map (fun p => sq (fst p - mean)) xw) / (n - 1).
+Proof.
+  intros Hc H n mean. destruct (wvar_rows_some xw v H) as (v0 & H0 & E). rewrite E.
+  exact (wvar_core_equal_weights xw c v0 Hc H0).
+Qed.
+
+Theorem weighted_var_equal_defined xw c :
+  Forall (fun p => snd p == c) xw -> 0 < c -> (2 <= length xw)%nat -> exists v, wvar_rows xw = Some v.
+Proof.
+  intros Hc Hpos Hlen. destruct (wvar_core_equal_defined xw c Hc Hpos Hlen) as [v0 H0].
+  destruct (wvar_core_some xw v0 H0) as (v & H & _). eauto.
+Qed.
+
+(** rescaling the weights changes neither whether the variance is defined nor its value *)
+Theorem weighted_var_scale_defined xw c v :
+  ~ c == 0 -> wvar_rows xw = Some v ->
+  exists v', wvar_rows (map (fun p => (fst p, c * snd p)) xw) = Some v' /\ v == v'.
+Proof.
+  intros Hc H. destruct (wvar_rows_some xw v H) as (v0 & H0 & E).
+  pose proof (wvar_core_scaled c xw Hc) as R. rewrite H0 in R. unfold opt_rel, scale_rows in R.
+  destruct (wvar_core (map (fun p => (fst p, c * snd p)) xw)) as [v1|] eqn:H1; [|contradiction].
+  destruct (wvar_core_some _ v1 H1) as (v' & H' & E'). exists v'. split; [exact H'|].
+  rewrite E, R. now symmetry.
+Qed.
+
+Theorem weighted_var_scale_invariant xw c v v' :
+  ~ c == 0 -> wvar_rows xw = Some v -> wvar_rows (map (fun p => (fst p, c * snd p)) xw) = Some v' -> v == v'.
+Proof.
+  intros Hc H H'. destruct (weighted_var_scale_defined xw c v Hc H) as (v1 & H1 & E).
+  rewrite H1 in H'. injection H' as <-. exact E.
 Qed.
 
 (** ** GMDistribution.pdf *)
@@ -381,7 +505,11 @@ Proof.
     apply negb_true_iff in D1. apply negb_true_iff in D2.
     destruct (wvar_rows (combine xs w)) as [v|] eqn:Ev.
     + apply close_refl; [exact Ht|]. symmetry. now apply weighted_var_reliability.
-    + exfalso. unfold wvar_rows in Ev. rewrite D1, D2 in Ev. discriminate.
+    + exfalso.
+      assert (Hd : exists v0, wvar_core (combine xs w) = Some v0).
+      { apply wvar_core_defined. unfold V2_of.
+        split; intro E; apply Qeq_bool_iff in E; congruence. }
+      destruct Hd as [v0 H0]. destruct (wvar_core_some _ v0 H0) as (v & Hv & _). congruence.
 Qed.
 
 (** GMDistribution.pdf: the model's value passes the decidable comparison with the definition *)
@@ -395,4 +523,168 @@ Theorem rvs_ok_sound size box o :
 Proof.
   unfold ok_rvs. intro H. apply andb_true_iff in H. destruct H as [Hl Hf].
   apply Nat.eqb_eq in Hl. split; [exact Hl|]. apply Forall_forall. now apply forallb_forall.
+Qed.
+
+(** ** invariance under a common positive factor (wave 2): the statistics depend on the ratios
+       of the numeric weights only, whatever their magnitude                                  *)
+Lemma qsum_scale c w : qsum (map (Qmult c) w) == c * qsum w.
+Proof. change (map (Qmult c) w) with (map (fun v => c * v) w). apply qsum_map_id_scale. Qed.
+
+Lemma qsum_sq_scale c w : qsum (map sq (map (Qmult c) w)) == c * c * qsum (map sq w).
+Proof.
+  rewrite map_map, <- qsum_map_scale. apply qsum_map_eq. intros v _. unfold sq. ring.
+Qed.
+
+Theorem spec_ess_scale_invariant c w : ~ c == 0 -> spec_ess (map (Qmult c) w) == spec_ess w.
+Proof.
+  intro Hc. unfold spec_ess. rewrite qsum_scale, qsum_sq_scale.
+  set (s := qsum w). set (Q2 := qsum (map sq w)).
+  destruct (Qeq_dec Q2 0) as [Ez|Hnz].
+  - unfold Qdiv. rewrite Ez. assert (E0 : c * c * 0 == 0) by ring. rewrite E0.
+    change (/ 0) with 0. ring.
+  - unfold sq. field. split; assumption.
+Qed.
+
+Lemma scaled_nonneg c w : 0 < c -> Forall (Qle 0) w -> Forall (Qle 0) (map (Qmult c) w).
+Proof.
+  intros Hc H. rewrite Forall_map. eapply Forall_impl; [|exact H]. intros v Hv. cbn beta.
+  apply Qmult_le_0_compat; lra.
+Qed.
+
+Lemma scaled_sum_pos c w : 0 < c -> 0 < qsum w -> 0 < qsum (map (Qmult c) w).
+Proof. intros Hc Hs. rewrite qsum_scale. now apply Qmult_lt_0_compat. Qed.
+
+Lemma Forall2_map_same {A B} (R : B -> B -> Prop) (f g : A -> B) l :
+  (forall v, In v l -> R (f v) (g v)) -> Forall2 R (map f l) (map g l).
+Proof.
+  induction l as [|a l IH]; intro H; cbn [map]; constructor.
+  - apply H. now left.
+  - apply IH. intros v Hv. apply H. now right.
+Qed.
+
+(** normalised weights of [c * w] are those of [w] *)
+Theorem normalize_weights_scale_invariant c w nw :
+  0 < c -> normalize_weights w = Some nw ->
+  exists nw', normalize_weights (map (Qmult c) w) = Some nw' /\ Forall2 Qeq nw nw'.
+Proof.
+  intros Hc H. destruct (normalize_inv w nw H) as (Hnn & Hs & ->).
+  destruct (normalize_weights_defined _ (scaled_nonneg c w Hc Hnn) (scaled_sum_pos c w Hc Hs)) as [nw' H'].
+  exists nw'. split; [exact H'|].
+  destruct (normalize_inv _ nw' H') as (_ & _ & ->). rewrite map_map.
+  apply Forall2_map_same. intros v _. cbn beta. rewrite !Qred_correct.
+  pose proof (qsum_scale c w) as E. rewrite E. field. split; lra.
+Qed.
+
+(** ess (c * w) = ess w for c > 0 (defined on one side iff on the other) *)
+Theorem compute_ess_scale_invariant c w e :
+  0 < c -> compute_ess w = Some e ->
+  exists e', compute_ess (map (Qmult c) w) = Some e' /\ e == e'.
+Proof.
+  intros Hc H.
+  assert (Hn : exists nw, normalize_weights w = Some nw).
+  { unfold compute_ess in H. destruct (normalize_weights w) as [nw|]; [eauto|discriminate]. }
+  destruct Hn as [nw Hn].
+  destruct (normalize_weights_scale_invariant c w nw Hc Hn) as (nw' & Hn' & _).
+  assert (He' : exists e', compute_ess (map (Qmult c) w) = Some e').
+  { unfold compute_ess. rewrite Hn'. eauto. }
+  destruct He' as [e' He']. exists e'. split; [exact He'|].
+  rewrite (compute_ess_spec _ _ H), (compute_ess_spec _ _ He').
+  fold (spec_ess w). fold (spec_ess (map (Qmult c) w)).
+  symmetry. apply spec_ess_scale_invariant. lra.
+Qed.
+
+(** the mixture density does not depend on the common scale of the component weights *)
+Theorem spec_pdf_scale_invariant c dens w : ~ c == 0 -> spec_pdf dens (map (Qmult c) w) == spec_pdf dens w.
+Proof.
+  intro Hc. unfold spec_pdf. rewrite combine_map_l, map_map. cbn [fst snd].
+  apply qsum_map_eq. intros p _. pose proof (qsum_scale c w) as E. rewrite E.
+  destruct (Qeq_dec (qsum w) 0) as [Ez|Hnz].
+  - unfold Qdiv. rewrite Ez. assert (E0 : c * 0 == 0) by ring. rewrite E0. change (/ 0) with 0. ring.
+  - field. split; assumption.
+Qed.
+
+Theorem gm_pdf_scale_invariant c dens w p :
+  0 < c -> gm_pdf dens (Some w) = Some p ->
+  exists p', gm_pdf dens (Some (map (Qmult c) w)) = Some p' /\ p == p'.
+Proof.
+  intros Hc H.
+  assert (Hn : exists nw, normalize_weights w = Some nw).
+  { unfold gm_pdf in H. destruct (normalize_weights w) as [nw|]; [eauto|discriminate]. }
+  destruct Hn as [nw Hn].
+  destruct (normalize_weights_scale_invariant c w nw Hc Hn) as (nw' & Hn' & _).
+  assert (Hp' : exists p', gm_pdf dens (Some (map (Qmult c) w)) = Some p').
+  { unfold gm_pdf. rewrite Hn'. eauto. }
+  destruct Hp' as [p' Hp']. exists p'. split; [exact Hp'|].
+  rewrite (gm_pdf_spec _ _ _ H), (gm_pdf_spec _ _ _ Hp'). unfold weights_of.
+  symmetry. apply spec_pdf_scale_invariant. lra.
+Qed.
+
+(** ** the decidable statement over representations / common scales ([CWeights]) *)
+Lemma all2_map_same {A B} (R : B -> B -> bool) (f g : A -> B) l :
+  (forall v, In v l -> R (f v) (g v) = true) -> all2 R (map f l) (map g l) = true.
+Proof.
+  induction l as [|a l IH]; intro H; cbn [map all2]; [reflexivity|].
+  apply andb_true_iff. split; [apply H; now left | apply IH; intros v Hv; apply H; now right].
+Qed.
+
+Lemma wf_stat_w_inv w : wf_stat_w w = true -> Forall (Qle 0) w /\ 0 < qsum w.
+Proof.
+  unfold wf_stat_w. intro H. apply andb_true_iff in H. destruct H as [Hnn Hs]. split.
+  - apply Forall_forall. intros v Hv. rewrite forallb_forall in Hnn. apply Qle_bool_iff. now apply Hnn.
+  - now apply Qltb_lt.
+Qed.
+
+(** the model's answers on [c * w], c > 0, pass the statement made at [w] *)
+Theorem norm_ess_model_ok w c tol :
+  0 <= tol -> 0 < c -> wf_stat_w w = true ->
+  ok_norm_ess w tol (normalize_weights (map (Qmult c) w)) (compute_ess (map (Qmult c) w)) = true.
+Proof.
+  intros Ht Hc Hwf. destruct (wf_stat_w_inv w Hwf) as [Hnn Hs].
+  destruct (normalize_weights_defined _ (scaled_nonneg c w Hc Hnn) (scaled_sum_pos c w Hc Hs)) as [nw' Hn'].
+  unfold ok_norm_ess, compute_ess. rewrite Hn'.
+  destruct (normalize_weights_spec _ nw' Hn') as (S1 & Nn & _).
+  apply andb_true_iff. split; [apply andb_true_iff; split; [apply andb_true_iff; split|]|].
+  - apply close_refl; [exact Ht | now symmetry].
+  - apply forallb_forall. intros v Hv. apply Qle_bool_iff. rewrite Forall_forall in Nn. now apply Nn.
+  - destruct (normalize_inv _ nw' Hn') as (_ & _ & ->). unfold spec_norm. rewrite map_map.
+    apply all2_map_same. intros v _. apply close_refl; [exact Ht|].
+    rewrite Qred_correct, qsum_scale. field. split; lra.
+  - apply close_refl; [exact Ht|]. rewrite <- (spec_ess_scale_invariant c w) by lra.
+    symmetry. apply (compute_ess_spec (map (Qmult c) w)). unfold compute_ess. now rewrite Hn'.
+Qed.
+
+Definition model_wrun (w : list Q) (st : Q * Q) : wrun :=
+  {| w_scale := fst st; w_tol := snd st;
+     w_norm := normalize_weights (map (Qmult (fst st)) w); w_ess := compute_ess (map (Qmult (fst st)) w) |}.
+
+Theorem weights_model_ok w (l : list (Q * Q)) :
+  Forall (fun st => 0 <= snd st) l -> ok_weights w (map (model_wrun w) l) = true.
+Proof.
+  intro Hl. unfold ok_weights. destruct (wf_stat_w w) eqn:Hwf; [|reflexivity].
+  apply forallb_forall. intros r Hr. apply in_map_iff in Hr. destruct Hr as (st & <- & Hst).
+  rewrite Forall_forall in Hl. specialize (Hl st Hst). cbn [model_wrun w_scale w_tol w_norm w_ess].
+  destruct (Qltb 0 (fst st)) eqn:Hc; [|reflexivity]. apply Qltb_lt in Hc.
+  now apply norm_ess_model_ok.
+Qed.
+
+(** soundness: an accepted answer for the weights [c * w] (the numbers the implementation got)
+    is, within the run's tolerance, a normalised non-negative vector and the effective sample size
+    (sum)^2 / (sum of squares) OF THOSE WEIGHTS *)
+Theorem weights_ok_sound w runs r :
+  wf_stat_w w = true -> ok_weights w runs = true -> In r runs -> 0 < w_scale r ->
+  exists nw e, w_norm r = Some nw /\ w_ess r = Some e /\
+    Qabs (1 - qsum nw) <= w_tol r * (1 + Qabs 1) /\ Forall (Qle 0) nw /\
+    Qabs (spec_ess (map (Qmult (w_scale r)) w) - e)
+      <= w_tol r * (1 + Qabs (spec_ess (map (Qmult (w_scale r)) w))).
+Proof.
+  intros Hwf H Hr Hc. unfold ok_weights in H. rewrite Hwf in H.
+  rewrite forallb_forall in H. specialize (H r Hr).
+  apply Qltb_lt in Hc. rewrite Hc in H. apply Qltb_lt in Hc.
+  unfold ok_norm_ess in H. apply andb_true_iff in H. destruct H as [Hn He].
+  destruct (w_norm r) as [nw|]; [|discriminate]. destruct (w_ess r) as [e|]; [|discriminate].
+  apply andb_true_iff in Hn. destruct Hn as [Hn _]. apply andb_true_iff in Hn. destruct Hn as [Hs Hnn].
+  exists nw, e. repeat split; auto.
+  - now apply close_sound.
+  - apply Forall_forall. intros v Hv. rewrite forallb_forall in Hnn. apply Qle_bool_iff. now apply Hnn.
+  - rewrite (spec_ess_scale_invariant (w_scale r) w) by lra. now apply close_sound.
 Qed.
